@@ -45,6 +45,10 @@ type GenConfig struct {
 	// AliasKeyPct: chance (percent) that a map key is a named alias of a primitive when one is in scope.
 	AliasKeyPct int
 
+	// EvoShapesPct: chance (percent) that a protocol step is a number, alone or nested in optionals and vectors
+	// (the shapes for which generated version conversions have dedicated code paths).
+	EvoShapesPct int
+
 	// BulkStreamPct: chance (percent) that the first protocol gets a trailing stream of records holding
 	// fixed-width bulk data (arrays and vectors of floats, complex numbers, bytes).
 	BulkStreamPct int
@@ -904,6 +908,24 @@ func (g *gen) protocolDef(name string) *Def {
 	names := g.memberNames(n, fieldWords)
 	for i := 0; i < n; i++ {
 		t := g.top(1)
+		if g.cfg.EvoShapesPct > 0 && g.chance("evoShape", g.cfg.EvoShapesPct) {
+			// shapes that version conversions have dedicated code for: a number, alone or inside optionals and vectors
+			np := Prim(NumericPrims[g.intn("evoPrim", len(NumericPrims))])
+			switch g.intn("evoWrap", 6) {
+			case 0:
+				t = np
+			case 1:
+				t = Optional(np)
+			case 2:
+				t = Vector(np)
+			case 3:
+				t = Vector(Optional(np))
+			case 4:
+				t = Optional(Vector(np))
+			default:
+				t = Vector(Vector(np))
+			}
+		}
 		if g.chance("isStream", 40) {
 			if s := Stream(t); g.closedOK(s) {
 				t = s
